@@ -297,7 +297,6 @@ def translate_api(tree, fname='api.py'):
                 if st.orelse:
                     ents += fb_walk(st.orelse, c_and(guard, c_not(c)))
                     return ents            # if/else covers everything below
-                ents.append((c_and(guard, c), 'false')) if False else None
                 # an `if` without else: the path where it does not hold continues below
                 guard = c_and(guard, c_not(c))
                 continue
